@@ -142,7 +142,19 @@ func sortEigensystem(eigenvectors Matrix, eigenvalues Vector) {
     sortEigenvalues(eigenvalues)
   } else {
     p := sortEigenvalues(eigenvalues)
-    eigenvectors.PermuteColumns(p)
+    // p is a general permutation (column i receives column p[i]) and
+    // not a sequence of interchanges as expected by PermuteColumns()
+    for i := 0; i < len(p); i++ {
+      // columns 0, ..., i-1 are already in place; find the current
+      // position of the column that was initially at position p[i]
+      j := p[i]
+      for j < i {
+        j = p[j]
+      }
+      if j != i {
+        eigenvectors.SwapColumns(i, j)
+      }
+    }
   }
 }
 
